@@ -22,7 +22,24 @@ func tryReplay(w *World, o *oblOut, scratch, verif string) map[string]interface{
 	vc := o.rep.VC
 	fn := vc.Fn
 	if o.Status != "sat" {
-		// no model (quantified context): boundary-value search through the same harness
+		// no model (quantified context). First try the quantifier-free relaxation of the query: its models are only
+		// candidates, so they count only if the real code fails on them. Then a boundary-value search.
+		if cand, _ := getModelRelaxed(o, vc); cand != nil {
+			if args, ok := literalArgs(vc, cand); ok {
+				if src, ok := harnessFor(vc, args); ok {
+					res := runHarness(w, vc, src, scratch, o.Kind)
+					if b, _ := res["reproduced"].(bool); b {
+						res["input"] = args
+						res["model"] = cand
+						res["search"] = "candidate model of the quantifier-free relaxation, confirmed on the real code"
+						for k, v := range res {
+							out[k] = v
+						}
+						return out
+					}
+				}
+			}
+		}
 		if res := boundarySearch(w, o, scratch); res != nil {
 			for k, v := range res {
 				out[k] = v
@@ -144,6 +161,29 @@ func getModel(o *oblOut, vc *VC) (map[string]string, string) {
 		return m, s
 	}
 	return nil, "no solver produced a model"
+}
+
+// getModelRelaxed drops every quantified assertion from the query and asks for a model of what remains.
+func getModelRelaxed(o *oblOut, vc *VC) (map[string]string, string) {
+	src, err := os.ReadFile(o.file)
+	if err != nil {
+		return nil, err.Error()
+	}
+	var keep []string
+	for _, l := range strings.Split(string(src), "\n") {
+		if strings.Contains(l, "(forall ") || strings.Contains(l, "(exists ") {
+			if strings.HasPrefix(l, "(assert (not ") {
+				return nil, "goal is quantified"
+			}
+			continue
+		}
+		keep = append(keep, l)
+	}
+	relaxed := o.file + ".relaxed.smt2"
+	os.WriteFile(relaxed, []byte(strings.Join(keep, "\n")), 0o644)
+	o2 := *o
+	o2.file = relaxed
+	return getModel(&o2, vc)
 }
 
 func normSpace(s string) string { return strings.Join(strings.Fields(s), " ") }
